@@ -6,6 +6,8 @@ import (
 	"bytes"
 
 	"gitlab.com/yawning/obfs4.git/common/drbg"
+	"gitlab.com/yawning/obfs4.git/common/ntor"
+	"gitlab.com/yawning/obfs4.git/common/replayfilter"
 	"gitlab.com/yawning/obfs4.git/common/probdist"
 	"gitlab.com/yawning/obfs4.git/internal/verifrt"
 	"gitlab.com/yawning/obfs4.git/transports/obfs4/framing"
@@ -42,4 +44,43 @@ func readAll(ep *obfs4Conn, maxReads int, bufSize int) ([]byte, error) {
 		}
 	}
 	return got, nil
+}
+
+// ---------- handshake helpers (real code on both sides) ----------
+
+func vServerFactory() *obfs4ServerFactory {
+	idKey, err := ntor.NewKeypair(false)
+	verifrt.Assume(err == nil)
+	nodeID, err := ntor.NewNodeID(verifrt.Bytes("nodeid", ntor.NodeIDLength))
+	verifrt.Assume(err == nil)
+	filter, err := replayfilter.New(replayTTL)
+	verifrt.Assume(err == nil)
+	return &obfs4ServerFactory{nil, nil, nodeID, idKey, vSeed("bridge_lenseed"), nil, iatNone, filter, verifrt.IntRange("closeDelay", 0, maxCloseDelay-1)}
+}
+
+// vServerConn wraps a scripted connection like WrapConn does (without the distribution tables).
+func vServerConn(sf *obfs4ServerFactory, sc *verifrt.Conn) *obfs4Conn {
+	lenDist := probdist.New(sf.lenSeed, 0, framing.MaximumSegmentLength, false)
+	return &obfs4Conn{sc, true, lenDist, nil, sf.iatMode, bytes.NewBuffer(nil), bytes.NewBuffer(nil), make([]byte, consumeReadSize), nil, nil}
+}
+
+func vClientConn(cc *verifrt.Conn) *obfs4Conn {
+	lenDist := probdist.New(vSeed("client_lenseed"), 0, framing.MaximumSegmentLength, false)
+	return &obfs4Conn{cc, false, lenDist, nil, iatNone, bytes.NewBuffer(nil), bytes.NewBuffer(nil), make([]byte, consumeReadSize), nil, nil}
+}
+
+// padClasses makes the handshake padding lengths (csrand.IntRange) a case split over the
+// minimum, minimum+1 and maximum of the range; the parsers' behaviour depends on the length
+// only through offsets.
+func padClasses() {
+	verifrt.OnIntn(func(n int) int {
+		switch verifrt.Pick("pad_class", 0, verifrt.Param("pad_classes")-1) {
+		case 0:
+			return 0
+		case 1:
+			return 1
+		default:
+			return n - 1
+		}
+	})
 }
